@@ -14,8 +14,32 @@ VERIF = os.path.dirname(os.path.dirname(os.path.abspath(__file__)))
 PY = "/venv/bin/python"
 
 
-def sh(cmd, **kw):
-    return subprocess.run(cmd, stdout=subprocess.PIPE, stderr=subprocess.STDOUT, text=True, **kw)
+class R:
+    pass
+
+
+def sh(cmd, timeout=None, **kw):
+    """run in its own session with output to a file (a demo may leave orphan worker processes
+    holding a pipe open); kill the whole process group afterwards"""
+    import signal
+    import tempfile
+
+    with tempfile.TemporaryFile("w+") as f:
+        p = subprocess.Popen(cmd, stdout=f, stderr=subprocess.STDOUT, start_new_session=True, **kw)
+        try:
+            rc = p.wait(timeout=timeout)
+        except subprocess.TimeoutExpired:
+            rc = -9
+        try:
+            os.killpg(p.pid, signal.SIGKILL)
+        except (ProcessLookupError, PermissionError):
+            pass
+        p.wait()
+        f.seek(0)
+        r = R()
+        r.returncode = rc
+        r.stdout = f.read()
+    return r
 
 
 def main():
